@@ -50,7 +50,7 @@ ASSUMPTIONS = [
 STUBS = ["the name `int` in dask._task_spec is bound to symx ShimInt during symbolic runs so that isinstance(x, (int, float, str, tuple)) accepts a symbolic int"]
 ENUM = ["term shape (construct kind, width, which child is deep), leaf kind, requested keys, cache variant",
         "every int leaf and every ('t', w) leaf of a legacy term is hashed by the converter (`task in all_keys`) and therefore concretised: ranges are "
-        "[-1, 2] / [0, 1]; ints in quoted values, dict arguments and task-object arguments are not hashed and stay symbolic (except inside Set)"]
+        "[-1, 1] (quick) or [-1, 2] / [0, 1]; ints in quoted values, dict arguments and task-object arguments are not hashed and stay symbolic (except inside Set)"]
 OUTSIDE = ["dict values that are legacy terms, e.g. get({'x': 1, 'y': (f, {'a': 'x'})}, 'y') passes {'a': 'x'} to f (no dereference, no dependency)",
            "dicts and sets in other positions of a legacy graph (top-level dict values become literal DataNodes; legacy set/frozenset arguments)",
            "namedtuples, SubgraphCallable, futures with __dask_future__, Task.fuse / substitute (C09), tokenisation/equality of nodes, async functions",
@@ -67,7 +67,7 @@ BOUNDS = {
     "thorough": dict(
         term="depth 1 with int leaves in [-1,2], dict arguments with <=2 entries and 6 value kinds, cache variant as a flag; depth 2 width<=2 with EVERY child deep, "
              "all leaf kinds at levels 0-1",
-        chain="first key: symbolic int / 'z' / (f, x); second: depth-1 width-1; third: depth-1 width-2; leaves int, ('t', w), 'z', dict arguments",
+        chain="first key: symbolic int / 'z' / (f,); second: depth-1 width-1; third: depth-1 width-2; leaves int, ('t', w), 'z', dict arguments",
         objects="depth 1 with TaskRef/Alias over all four keys; depth 2 with every child deep, Dict forms at the top level"),
 }
 
@@ -668,7 +668,7 @@ def obligations(tier):
         c2 = dict(leaves=[L_FULL, L_FULL, L_SMALL], comps=COMPS, width=2, irange=(-1, 0), one_deep=False, dwidth=1)
         for top in COMPS:
             obs.append(mk_term(f"d2,w2,all deep,top={top}", 2, c2, (top,), every=11))
-        cb0 = dict(leaves=[("int", "slit")], comps=("call",), width=1, irange=(-1, 1))
+        cb0 = dict(leaves=[("int", "slit")], comps=("call",), width=0, irange=(-1, 1))
         cb1 = dict(leaves=[("int", "tkey", "slit")], comps=COMPS, width=1, irange=(-1, 0), dwidth=1)
         cb2 = dict(leaves=[("int", "tkey", "slit")], comps=COMPS, width=2, irange=(-1, 0), dwidth=1)
         obs.append(mk_chain("3 keys,d1,w2", [(1, cb0), (1, cb1), (1, cb2)], every=11))
